@@ -106,7 +106,7 @@ func (m *Machine) sameValue(a, b Value) *sym.Term {
 		return m.sameValue(x.V, y.V)
 	case FuncV:
 		y, ok := b.(FuncV)
-		if !ok || x.Fn != y.Fn || x.B != y.B || len(x.Env) != len(y.Env) {
+		if !ok || x.Fn != y.Fn || x.B != y.B || x.Native != y.Native || len(x.Env) != len(y.Env) {
 			return m.S.False()
 		}
 		r := m.S.True()
